@@ -247,7 +247,8 @@ class RulesDriver(MachineDriver):
         g = m.game
         return (tuple(sorted(self.rule_table())), tuple(sorted((n, bool(d._enabled)) for n, d in self.all_devs.items())),
                 tuple(sorted(self.ref.items())), self.in_play, self.service, self.tilted,
-                (g.num_players, g.player.ball if g.player else None, g.balls_in_play, g.tilted, g.slam_tilted, g.ending) if g else None,
+                (g.num_players, g.player.number if g.player else None, g.player.ball if g.player else None, g.balls_in_play,
+                 g.tilted, g.slam_tilted, g.ending) if g else None,
                 tuple(sorted(self.coil_on.items())), tuple(getattr(d, "_sw_flipped", None) for d in self.devs.values()),
                 tuple(sorted(self.installed.items())), self.rel_timers(), self.modes_fp(), self.m.playfield.balls,
                 len([t for t in self.all_devs["a_to"]._timeout_hits if t > self.loop.time() - 1.0]), self.task_fp())
